@@ -189,9 +189,9 @@ pub fn family(name: &str) -> Family {
         },
         // C14: strings over digits, letters, underscore, every kind of whitespace / line terminator, multi-byte characters
         "txt" => Family { leaves: vec![], unary: vec![], binary: vec![],
-            alphabet: vec!["0", "1", "7", "9", "a", "f", "z", "_", "S", "T", "N", "R", "V", "F", "X", "L", "P", "E", "+", "0", "a", "S", "N", "R"] },
+            alphabet: vec!["0", "1", "7", "9", "a", "f", "z", "_", "S", "T", "N", "R", "V", "F", "X", "L", "P", "E", "+", "0", "a", "S", "N", "R", "g", "A", "@", "`", "H", "I", "K", "M", "/", ":"] },
         "txtb" => Family { leaves: vec![], unary: vec![], binary: vec![],
-            alphabet: vec!["0", "1", "7", "9", "a", "f", "z", "_", "S", "T", "N", "R", "V", "F", "+", "0", "a", "S"] },
+            alphabet: vec!["0", "1", "7", "9", "a", "f", "z", "_", "S", "T", "N", "R", "V", "F", "+", "0", "a", "S", "g", "A", "@", "`", "/", ":"] },
         "pratt" => Family { leaves: vec![], unary: vec![], binary: vec![], alphabet: vec!["a", "b", "+", "*", "-", "!", "^", "~"] },
         _ => panic!("unknown family {name}"),
     }
